@@ -4,6 +4,7 @@ set -e
 cd "$(dirname "$0")"
 command -v tlc >/dev/null
 command -v java >/dev/null
+command -v apalache-mc >/dev/null
 /venv/bin/python -c "import jax, probdiffeq" 
 for f in spec/*.tla; do
   [ -e "$f" ] || continue
